@@ -169,5 +169,12 @@ class SpooledTextFile(_io.TextIOBase):
         file = self._file
         self._path = self._get_unused_path()
         newfile = self._file = self._path.open(mode='x+')
-        newfile.write(file.getvalue())
-        newfile.seek(file.tell(), 0)
+        contents = file.getvalue()
+        pos = file.tell()
+        # The position of a StringIO is a character index,
+        # which is not a valid position of a text file on disk
+        # (if the contents contains multi-byte characters).
+        newfile.write(contents[:pos])
+        pos_on_disk = newfile.tell()
+        newfile.write(contents[pos:])
+        newfile.seek(pos_on_disk, 0)
